@@ -79,7 +79,26 @@ def run_case(case):
                 words = [(case["seed"] * 31 + i * 1000 + k) % 30000 + 1 for k in range(n // 2)]
                 fb.put(1 + i, "image", struct.pack(f">{len(words)}h", *words))
                 want_imgs.append((pix, 2, words))
-            out = impl(read_sar_trailer, io.BytesIO(fb.bytes()))
+            # the file object: in memory, or a raw stream that hands out at most 4096 bytes per call (an unbuffered pipe / socket, a
+            # streamed HTTP body: reads may legally come up short), bare or behind a BufferedReader
+            class Dribble(io.RawIOBase):
+                def __init__(self, data):
+                    self._d, self._p = data, 0
+
+                def readable(self):
+                    return True
+
+                def readinto(self, b):
+                    n = min(len(b), 4096, len(self._d) - self._p)
+                    b[:n] = self._d[self._p:self._p + n]
+                    self._p += n
+                    return n
+
+            data = fb.bytes()
+            how = case["seed"] % 3
+            fobj = io.BytesIO(data) if how == 0 else Dribble(data) if how == 1 else io.BufferedReader(Dribble(data), buffer_size=1024)
+            res["stream"] = ("BytesIO", "raw stream (<= 4096 bytes per read)", "BufferedReader over a raw stream")[how]
+            out = impl(read_sar_trailer, fobj)
             if out is None:
                 return res
             header, images = out
@@ -140,6 +159,16 @@ def body(chk):
     want += [dict(file="volume", nfp=3), dict(file="image", kind="processed", n=2, ndata=4, bps=2),
              dict(file="image", kind="signal", n=2, ndata=16, bps=8), dict(file="trailer", nlow=0, lens=[])]
     L.instances(want)
+    # leaders, volume directories and trailers interleaved: every worker process reads trailers (an entry point of its own, imported on
+    # first use) BEFORE and between products -- what one reader module does on import must not reach the others
+    tr = [c for c in todo if c["file"] == "trailer"]
+    rest = [c for c in todo if c["file"] != "trailer"]
+    todo, k_tr = [], max(1, len(rest) // max(1, len(tr)))
+    for i, c in enumerate(rest):
+        if i % k_tr == 0 and tr:
+            todo.append(tr.pop(0))
+        todo.append(c)
+    todo += tr
     results = checklib.pmap(run_case, todo, chk.scratch, chunksize=8)
     for res in results:
         c = res["case"]
